@@ -62,6 +62,8 @@ def to_lib(a):
     """spec argument -> the harness's abstract value (python ints are unbounded)"""
     if a['t'] == 'dec':
         return {'t': 'num', 'n': int_of_dec(a), 'd': 1}
+    if a['t'] == 'decfrac':       # a number with a fractional part: the double nearest to <digits>.<fraction digits>
+        return {'t': 'float', 'v': ''.join(map(str, a['dg'])) + '.' + ''.join(map(str, a['fr']))}
     return a
 
 
@@ -384,10 +386,16 @@ def driver(seed, count):
             elif r < 0.09:
                 s = s + rng.choice('0123456789ABCDEF') * (11 - len(s))
             a0 = N(int(s)) if s.isdigit() and s[0] != '0' and rng.random() < 0.4 else T(s)
+            if s.isdigit() and s[0] != '0' and rng.random() < 0.08:      # the same digits with a fractional part (ten digits and .5, a tiny fraction)
+                fr = rng.choice(['5', '25', '00001', '000000001', '5', '75'])
+                if len(s) + len(fr) <= 15:
+                    a0 = {'t': 'decfrac', 'neg': False, 'dg': [int(c) for c in s], 'fr': [int(c) for c in fr]}
         args = [a0]
         if dst != 'DEC' and rng.random() < 0.6:
             args.append(N(rng.choice([1, 2, 3, 4, 5, 6, 7, 8, 9, 10, 10, 10, 0, 11, -1, 12, 255])))
         path = ('formula', 'cells', 'direct', 'wrapped', 'float')[i % 5]
+        if args[0]['t'] == 'decfrac':
+            path = ('direct', 'wrapped')[i % 2]
         if path == 'float' and not (args[0]['t'] in ('num', 'dec')):
             path = 'direct'
         ev.append({'f': f, 'args': args, 'path': path})
